@@ -83,6 +83,13 @@ class FlowMixin:
                 g.tick_time = fresh("tick", z3.RealSort())
                 g.step_time = fresh("stept", z3.RealSort())
             self.havoc_locals(g, assigned_names(stmt.body) | (assigned_names([stmt.target]) if for_ctx else set()), back[0][0])
+            # local lists mutated in place by the body (append/pop/... leave no assignment behind)
+            for b, _bi in back:
+                for cid, lv in b.cells.items():
+                    if cid in st0.cells and lv is not st0.cells[cid] and g.cells.get(cid) is st0.cells[cid]:
+                        nl = LVal(lv.ety, fresh("lc_" + cid, z3.ArraySort(z3.IntSort(), sort_of(lv.ety))), fresh("lcn_" + cid, z3.IntSort()), lv.kind)
+                        g.assume(nl.n >= 0)
+                        g.cells[cid] = nl
             if may_suspend(stmt.body):
                 t_before = self.loop_field(g, "time")
                 self.havoc_heap(g, full=True, reason=label)
